@@ -954,6 +954,10 @@ impl<'b> InnerBucket<'b> {
             self.put_leaf(Leaf::Bucket(name, meta))?;
         }
 
+        // Rebalancing may have promoted a page that was never loaded as a node to be the root.
+        if !self.page_node_ids.contains_key(&self.meta.root_page) {
+            self.node(PageNodeID::Page(self.meta.root_page), None);
+        }
         let root = self.nodes[self.page_node_ids[&self.meta.root_page] as usize].clone();
         let mut root = root.borrow_mut();
         let page_id = root
